@@ -20,3 +20,8 @@ void entry_mut(const char *p) { helper_mut(p); }
 extern unsigned long strlen(const char *);
 void strip_bad(char *s) { unsigned long n = strlen(s); while (s[n - 1] == '/') { --n; s[n] = 0; } }
 void strip_ok(char *s) { unsigned long n = strlen(s); while (n > 0 && s[n - 1] == '/') { --n; s[n] = 0; } }
+/* flags carried through helper return values and selects (paths.py correlate) */
+extern void touch(char *);
+static int has_low(const char *s) { unsigned i; for (i = 0; s[i] != 0; ++i) { if (s[i] >= 'a') return 1; } return 0; }
+void flagsel_ok(char *a, char *b) { int all = 1; if (a != 0 && has_low(a)) all = 0; if (all && b != 0 && has_low(b)) all = 0; if (all) touch(a); }
+void flagsel_bad(char *a, char *b) { int all = 1; if (a != 0 && has_low(a)) all = 0; if (b != 0 && has_low(b)) all = 1; if (all) touch(a); }
